@@ -14,6 +14,9 @@ THEOREMS = [
     'Ndn.C08.merge_is_assignment', 'Ndn.C08.merge_ok_iff', 'Ndn.C08.merged_order',
     'Ndn.C08.merged_field_is_last_assignment', 'Ndn.C08.merged_plain', 'Ndn.C08.base_not_included_ignored',
     'Ndn.C08.inherit_without_include', 'Ndn.C08.derived_encodes_in_merged_order', 'Ndn.Gen.C08.shipped_merge_ok',
+    # decoder output is well-formed (any byte string): decode . encode . decode = decode
+    'Ndn.C08.parse_wf', 'Ndn.C08.reencode_parses_back', 'Ndn.C08.reencode_succeeds',
+    'Ndn.Codec.parse_accept', 'Ndn.Codec.parse_size', 'Ndn.Codec.reencode_ok',
 ]
 PARTIAL = {}
 TRUSTED = [
@@ -48,7 +51,11 @@ LEVEL_TEXT = ('Lean 4 theorems about a generic interpreter of TLV model schemas 
               'in field order with shortest T/L and smallest integer width, decode(encode v) = v (MapField included: key '
               'UintField/BytesField, value an element field of another Type, dict keys pairwise different), unknown non-critical '
               'elements skipped and unknown critical ones rejected at every element boundary, also between a map key and its '
-              'value - for ALL schemas and values by structural induction; and about a model of the metaclass (for ALL class '
+              'value - for ALL schemas and values by structural induction; decoder side, for EVERY byte string: whatever parse '
+              'accepts is a legal assignment with integers < 2^64 and byte strings / names no longer than the wire (parse_wf), '
+              'so re-encoding an accepted model - when encode succeeds, which it must for classes without fixed_len integers '
+              'and wires shorter than 2^64 bytes, giving a wire no longer than the original - decodes to the same model '
+              '(reencode_parses_back, reencode_succeeds); and about a model of the metaclass (for ALL class '
               'bodies and bases: the position bookkeeping is a Python dict of assignments, names once in first-assignment order, '
               'last assignment wins in place, bases that are not included contribute nothing, IncludeBaseError exactly for a '
               'non-base / non-TlvModel, an instance is encoded in that order). The interpreter and the metaclass model are '
